@@ -292,13 +292,16 @@ func samplerStub(kind string, add bool) feStub {
 				_ = pt
 				if iv, ok := pv.(Iface); ok {
 					if p, ok := iv.V.(Ptr); ok && p.Obj != nil {
-						id := fmt.Sprintf("prng%d", p.Obj.ID)
+						// position is per PRNG object; the stream identity is the key when two objects were declared
+						// to be keyed alike (vPRNGKey), so that equal call sequences read equal polynomials
+						pos := fmt.Sprintf("prng%d", p.Obj.ID)
+						id := pos
 						if key, ok := x.prngKeys[p.Obj]; ok {
-							id = "crs" + key
+							id = "crs:" + key
 						}
 						st := x.feS()
-						st.streams[id]++
-						name = fmt.Sprintf("u[%s#%d]", id, st.streams[id])
+						st.streams[pos]++
+						name = fmt.Sprintf("u[%s#%d]", id, st.streams[pos])
 					}
 				}
 			}
